@@ -73,6 +73,8 @@ def draw_recording(rng, idx, fmt=None):
         else:
             b = rng.choice(["HN", "BH", "HL"])
             s["codes"] = {"N": b + "N", "E": b + "E", "Z": b + "Z"}
+        if rng.random() < 0.3:
+            s["peer_short"] = {"comp": rng.choice(["N", "E", "Z"]), "by": rng.randint(1, 20)}
     s["dfn"] = rng.choice([None, None, 0.0, 33.5, 400.0, -15.0])
     return s
 
@@ -430,8 +432,9 @@ class State:
     pass
 
 
-def obspy_shim(st):
+def obspy_shim(st, real=None):
     import obspy
+    real = real or obspy.read
 
     def shim(fname, *args, **kwargs):
         with warnings.catch_warnings():
@@ -439,8 +442,8 @@ def obspy_shim(st):
             if is_sim(fname):
                 with st.fs.open(fname, "rb") as fh:      # through SimFS: read faults apply here too
                     data = fh.read()
-                return obspy.read(io.BytesIO(data), *args, **kwargs)
-            return obspy.read(fname, *args, **kwargs)
+                return real(io.BytesIO(data), *args, **kwargs)
+            return real(fname, *args, **kwargs)
     return shim
 
 
@@ -495,15 +498,24 @@ def execute(triple, prop):
             warnings.simplefilter("ignore")
             build_disk(ctx, st, triple["world"], triple["faults"])
             ctx.event(op="store", files={p: sha_array(np.frombuffer(b, dtype=np.uint8)) for p, b in sorted(st.fs.disk.files.items())})
-            old = DW._quiet_obspy_read
-            DW._quiet_obspy_read = obspy_shim(st)
+            # seam: the module's own obspy wrapper when it exists, else obspy.read as the module sees it
+            import obspy as _obspy
+            shim = obspy_shim(st)
+            if hasattr(DW, "_quiet_obspy_read"):
+                seam_obj, seam_name = DW, "_quiet_obspy_read"
+            else:
+                seam_obj, seam_name = _obspy, "read"
+            old = getattr(seam_obj, seam_name)
+            if seam_obj is _obspy:
+                shim = obspy_shim(st, real=old)
+            setattr(seam_obj, seam_name, shim)
             try:
                 with Patched(st.fs, modules=(DW,)):
                     for op in triple["ops"]:
                         run_op(ctx, st, op, H)
                         ctx.ops_done += 1
             finally:
-                DW._quiet_obspy_read = old
+                setattr(seam_obj, seam_name, old)
     except Violation as v:
         violation = v.as_dict()
         ctx.event(violation=violation["oracle"])
